@@ -49,6 +49,16 @@ class RefModel:
     def resolve(self, name):
         return self.follow(name)[1]
 
+    def hops(self, name):
+        """number of symbolic refs on the chain starting at `name`"""
+        n, cur = 0, name
+        while n < 8:
+            v = self.read(cur)
+            if v is None or not v.startswith(SYMREF):
+                return n
+            n, cur = n + 1, v[len(SYMREF):]
+        return n
+
     def is_symbolic(self, name):
         v = self.read(name)
         return v is not None and v.startswith(SYMREF)
